@@ -59,7 +59,17 @@ func (g *c14Gen) keyExpr() jast.Node {
 
 func (g *c14Gen) valExpr() jast.Node {
 	r := g.r
-	switch r.Intn(9) {
+	switch r.Intn(12) {
+	case 9:
+		// the grouped items themselves: one item is that item, several are an array
+		g.tags["val:context-itself"] = true
+		return &jast.Var{Name: ""}
+	case 10:
+		g.tags["val:type-of-context"] = true
+		return &jast.Call{Fn: &jast.Var{Name: "type"}, Args: []jast.Node{&jast.Var{Name: ""}}}
+	case 11:
+		g.tags["val:count-of-context"] = true
+		return &jast.Call{Fn: &jast.Var{Name: "count"}, Args: []jast.Node{&jast.Var{Name: ""}}}
 	case 0:
 		g.tags["val:sum"] = true
 		return &jast.Call{Fn: &jast.Var{Name: "sum"}, Args: []jast.Node{&jast.Name{V: "v"}}}
